@@ -647,6 +647,12 @@ def opIdentify (j : Json) : Except String Json := do
   pure <| Json.mkObj [("outcome", jOutcome (identify c)), ("expected", jOutcome (expected c)),
     ("in_scope", Json.bool (inScope c))]
 
+def opIdentifyMany (j : Json) : Except String Json := do
+  let kinds ← (← getArr j "kinds").toList.mapM (fun x => do kindOf (← x.getStr?))
+  let c : Cmd := ⟨kinds, ← typeOfS (← getS j "type"), ← getBool j "deref",
+    ← getBool j "filename", ← getBool j "recursive", ← verifyOf (← getS j "verify"), ← getBool j "exclude"⟩
+  pure <| Json.mkObj [("outcomes", Json.arr ((identifyMany c).map jOutcome).toArray)]
+
 end CliDrv
 
 /-! #### C06 / C13 reading a tree from disk -/
@@ -835,6 +841,7 @@ def dispatch (op : String) (j : Json) : Except String Json :=
   | "swhid_codec" => opSwhidCodec j
   | "sha1" => opSha1 j
   | "cli_identify" => CliDrv.opIdentify j
+  | "cli_identify_many" => CliDrv.opIdentifyMany j
   | "fs_read" => FsDrv.opRead j
   | "fs_normalize" => FsDrv.opNormalize j
   | "values" => opValues j
